@@ -36,6 +36,15 @@ def content_of(name: str) -> bytes:
     return (f'content of {name}\n' * 3).encode()
 
 
+def conf_input(rule: T.Dict[str, T.Any]) -> bytes:
+    return (f"# {rule['name']}\nwho = @WHO@\nkeep = @@ and 100%\n").encode()
+
+
+def conf_output(rule: T.Dict[str, T.Any]) -> bytes:
+    b = conf_input(rule)
+    return b if rule['how'] == 'copy' else b.replace(b'@WHO@', b'meson')
+
+
 def sha(b: bytes) -> str:
     return hashlib.sha256(b).hexdigest()[:16]
 
@@ -122,7 +131,7 @@ def expected_tree(spec: T.Dict[str, T.Any], destdir: str, opts: T.Dict[str, T.An
         return (0o777 if srcexec else 0o666) & ~umask
 
     # order of the installer: subdirs, (targets), headers, man, emptydir, data, symlinks
-    order = {'subdir': 0, 'ctarget': 1, 'target': 1, 'headers': 2, 'man': 3, 'emptydir': 4, 'data': 5, 'symlink': 6}
+    order = {'subdir': 0, 'ctarget': 1, 'target': 1, 'headers': 2, 'man': 3, 'emptydir': 4, 'data': 5, 'conf': 5, 'symlink': 6}
     for rule in sorted(spec['rules'], key=lambda r: order[r['kind']]):
         k = rule['kind']
         if k == 'data':
@@ -144,11 +153,20 @@ def expected_tree(spec: T.Dict[str, T.Any], destdir: str, opts: T.Dict[str, T.An
                 t.add_file(dst, fmode(f.get('exec', False), rule.get('mode')), sha(content_of(f['name'])))
         elif k == 'ctarget':
             # an installed custom_target output (a file produced in the build directory)
+            # (several outputs: one destination and tag per output, `false` = that output is not installed)
+            for o in [{'name': rule['name'], 'dir': rule['dir'], 'tag': rule.get('tag'), 'exec': rule.get('exec', False)}] + rule.get('outs', []):
+                if not o['dir'] or not wanted(rule, o.get('tag')):
+                    continue
+                dst = os.path.join(resolve(o['dir']), o['name'])
+                t.add_parents(os.path.dirname(dst), dirmode, destdir)
+                t.add_file(dst, fmode(o.get('exec', False), rule.get('mode')), sha(content_of('ctarget:' + o['name'])))
+        elif k == 'conf':
+            # an installed configure_file() output: installed like data, from the build directory
             if not wanted(rule, rule.get('tag')):
                 continue
             dst = os.path.join(resolve(rule['dir']), rule['name'])
             t.add_parents(os.path.dirname(dst), dirmode, destdir)
-            t.add_file(dst, fmode(rule.get('exec', False), rule.get('mode')), sha(content_of('ctarget:' + rule['name'])))
+            t.add_file(dst, fmode(False, rule.get('mode')), sha(conf_output(rule)))
         elif k == 'target':
             # a compiled build target (executable / shared library / static library) with install: true
             fname, aliases = target_files(rule)
